@@ -453,7 +453,19 @@ func (e *Enc) addFootprint(ce *callEffect, m string, env *SpecEnv) {
 			return
 		}
 		key := e.elemKey(sl.Elem())
-		ce.foot[key] = append(ce.foot[key], "(sref "+sv.T+")")
+		ref := "(sref " + sv.T + ")"
+		// elems(p.f) for a nil p names nothing (row 0 is never modified)
+		if sp.Kind == SField && sp.A != nil {
+			nf := len(e.fatal)
+			if bv := e.evalSpec(sp.A, env); len(e.fatal) == nf && bv.S == "Int" && bv.GoT != nil {
+				if _, isPtr := bv.GoT.Underlying().(*types.Pointer); isPtr {
+					ref = fmt.Sprintf("(ite (= %s 0) 0 %s)", bv.T, ref)
+				}
+			} else {
+				e.fatal = e.fatal[:nf]
+			}
+		}
+		ce.foot[key] = append(ce.foot[key], ref)
 		return
 	case strings.HasPrefix(m, "elemtype "):
 		// every slice/array element of the given type (whole heap key)
